@@ -83,6 +83,18 @@ class Taint:
                         self.t.add((fid, t["dest"]["l"]))
                         self.sources.append((f, bb))
                         break
+        # numbers reported by the chunk decoder (a dependency that parses the client's bytes: `remaining_chunks_size` is the size the
+        # client announced for the current chunk): any integer-carrying result of a call into a non-std dependency on a value that wraps a reader
+        for fid, f in self.fns.items():
+            for bb, t in f.calls():
+                n = call_name(t)
+                if t["dest"]["p"] or not self.intish(f, t["dest"]["l"]) or (fid, t["dest"]["l"]) in self.t:
+                    continue
+                if n in facts.local_fns or re.match(r"^<?(std|core|alloc)::", n) or re.search(r"::(len|count|capacity|position|find|rfind)$", n):
+                    continue
+                if re.match(r"^<?chunked_transfer::", n) or (t.get("res_name") or "").startswith("chunked_transfer::"):
+                    self.t.add((fid, t["dest"]["l"]))
+                    self.sources.append((f, bb))
         changed = True
         rounds = 0
         while changed and rounds < 50:
